@@ -74,6 +74,8 @@ fn main() {
         "packets" => packets::roundtrip(seed),
         "locale" => conn::locale(seed),
         "limits" => conn::limits(seed),
+        "session" => conn::session(seed),
+        "cookie_matrix" => conn::cookie_matrix(seed),
         "cipher" => cipher::schedules(seed),
         "mojang" => mojang::request(seed),
         "mchash" => mojang::mchash(seed),
